@@ -111,6 +111,24 @@ Theorem C10_strategy_indices_wellformed :
 Proof. intros. apply (strategy_indices_wellformed (inst k p)). apply zquery_pure. Qed.
 Print Assumptions C10_strategy_indices_wellformed.
 
+(* StreamProbabilisticAL = utility oracle over the balanced incremental quantile filter: the same
+   strategy-layer theorems with BIQF as the manager, for every quantile oracle and every arithmetic *)
+Theorem C10_strategy_over_biqf_chunking_invariance :
+  forall (F : Type) (N : Num F) (quant : Z -> list F -> F) (p : bparams) (C W : Type)
+         (wstep : W -> C -> bool * W) (inp : bool -> C -> F) (chunks : list (list C)) (s : W * bstate),
+  b_wf p (snd s) ->
+  xprocess (squery (b_query quant p) wstep inp) (supdate (b_update p) wstep inp) s chunks =
+  giter (sinst (b_inst quant p) wstep inp) s (concat chunks).
+Proof.
+  intros F N quant p C W wstep inp chunks s Hs.
+  apply (strategy_chunking_invariance (b_inst quant p) (b_query quant p) (b_update p) wstep inp (b_wf p)).
+  - apply b_query_pure.
+  - intros m xs Hm. apply b_update_sim. exact Hm.
+  - intros m xs idx. apply b_update_wf.
+  - exact Hs.
+Qed.
+Print Assumptions C10_strategy_over_biqf_chunking_invariance.
+
 (* the instance used by StreamDensityBasedAL: the sliding-window density test, any distance oracle *)
 Theorem C10_density_strategy_chunking_invariance :
   forall (F : Type) (N : Num F) (k : zkind) (p : zparams) (d : nat -> nat -> Z) (maxlen : nat)
